@@ -87,6 +87,7 @@ def cases(chk):
         body = bytes(r.randrange(256) for _ in range(16 * (nblocks - 1))) + bytes(last)
         yield "unpad", {"padded": body.hex(), "kind": r.choice(KINDS), "key": keys[i % 3]}
     yield "unpad", {"padded": "", "kind": "image", "key": keys[0]}
+    yield "optimized", {"lens": [0, 1, 15, 16, 17, 33, 64, 1000]}
 
 
 def nontrivial(stream, case):
@@ -107,7 +108,49 @@ def _plain(case):
     return data
 
 
+def run_optimized(chk, case):
+    """the rejection of modified ciphertexts must not depend on the interpreter's optimisation switch: the same tamper / wrong-key / wrong-kind
+    probes in a child process started with `python -O` (assert statements are compiled away there)"""
+    import json
+    import os
+    import subprocess
+    import sys
+    code = (
+        "import sys, json; sys.path.insert(0, %r); import boot\n"
+        "from yowsup.layers.protocol_media.mediacipher import MediaCipher\n"
+        "mc = MediaCipher(); out = []\n"
+        "infos = [MediaCipher.INFO_IMAGE, MediaCipher.INFO_AUDIO]\n"
+        "key = bytes(range(32)); other = bytes(range(1, 33))\n"
+        "for n in %r:\n"
+        "    p = bytes((7 * i + n) %% 256 for i in range(n)); ct = mc.encrypt(p, key, infos[0])\n"
+        "    probes = [('tag byte %%d flipped' %% k, ct[:len(ct) - 10 + k] + bytes([ct[len(ct) - 10 + k] ^ 1]) + ct[len(ct) - 9 + k:], key, infos[0]) for k in (0, 9)]\n"
+        "    probes += [('body byte %%d flipped' %% k, ct[:k] + bytes([ct[k] ^ 0x80]) + ct[k + 1:], key, infos[0]) for k in (0, len(ct) - 11)]\n"
+        "    probes += [('truncated by 1', ct[:-1], key, infos[0]), ('one byte appended', ct + b'x', key, infos[0]), ('wrong key', ct, other, infos[0]), ('wrong kind', ct, key, infos[1])]\n"
+        "    for what, x, k_, i_ in probes:\n"
+        "        try:\n"
+        "            q = mc.decrypt(x, k_, i_); out.append([n, what, 'same plaintext' if q == p else 'different plaintext'])\n"
+        "        except Exception:\n"
+        "            pass\n"
+        "    assert_on = False\n"
+        "print(json.dumps({'accepted': out, 'optimized': not __debug__}))\n" % (os.path.dirname(os.path.dirname(os.path.abspath(__file__))), case["lens"]))
+    p = subprocess.run([sys.executable, "-O", "-c", code], stdout=subprocess.PIPE, stderr=subprocess.PIPE, timeout=120, env=dict(os.environ))
+    chk.hit("optimized-child")
+    try:
+        res = json.loads(p.stdout.decode().strip().splitlines()[-1])
+    except Exception:
+        return [oracle("C15:optimized-child-fails", "python -O child: exit %d, %s" % (p.returncode, p.stderr.decode(errors="replace").strip().splitlines()[-1:]))]
+    if not res["optimized"]:
+        chk.notes.append("python -O child did not run optimised")
+    if res["accepted"]:
+        n, what, how = res["accepted"][0]
+        return [oracle("C15:tamper-accepted:optimized-interpreter", "under `python -O` (assert statements removed): plaintext of %d bytes, %s: accepted, %s returned (%d probes accepted in all)"
+                       % (n, what, how, len(res["accepted"])))]
+    return []
+
+
 def run_case(chk, stream, case):
+    if stream == "optimized":
+        return run_optimized(chk, case)
     fails = []
     mc, info = chk.mc, chk.infos[case["kind"]]
     key = bytes.fromhex(case["key"])
